@@ -26,6 +26,7 @@ class Case:
         self.form = form
         self.events = events
         self.md = md
+        self.counter: Optional[int] = None  # value to give the global name counter before translating
         self.result: Optional[Dict[str, Any]] = None
         self.package: Optional[Dict[str, Any]] = None
         self.answer: Optional[Dict[str, Any]] = None
@@ -37,11 +38,16 @@ class Case:
         return f"{self.backend}|{self.source()}"
 
     def to_json(self) -> Dict[str, Any]:
-        return {"backend": self.backend, "query": self.query, "names": self.names, "form": self.form, "events": self.events, "source": self.source()}
+        d = {"backend": self.backend, "query": self.query, "names": self.names, "form": self.form, "events": self.events, "source": self.source()}
+        if self.counter is not None:
+            d["counter"] = self.counter
+        return d
 
     @staticmethod
     def from_json(j: Dict[str, Any]) -> "Case":
-        return Case(j["backend"], j["query"], j.get("names", []), j.get("form", "?"), j["events"])
+        c = Case(j["backend"], j["query"], j.get("names", []), j.get("form", "?"), j["events"])
+        c.counter = j.get("counter")
+        return c
 
 
 def gen_case(rng, backend: Optional[str] = None, nevents: int = EVENTS_PER_QUERY, empty_bias=0.25, **genkw) -> Case:
@@ -53,7 +59,15 @@ def gen_case(rng, backend: Optional[str] = None, nevents: int = EVENTS_PER_QUERY
     return Case(b, q, names, form, evs)
 
 
+def set_counter(case: Case):
+    if case.counter is not None:
+        import func_adl_xAOD.common.cpp_vars as cv
+
+        cv.unique_var_index = case.counter
+
+
 def translate(case: Case) -> Case:
+    set_counter(case)
     src = qgen.render_functional(case.query, qgen.metadata(case.backend) if case.md is None else case.md)
     case.result = P.translate_functional(case.backend, src)
     if case.result["ok"]:
